@@ -215,7 +215,7 @@ func (w *World) RunBatchLazy(specs []ProcSpec, sched Scheduler, faults []Fault) 
 			continue
 		}
 		act := "go"
-		if f, ok := fmap[[2]int{pi, p.Pend.K}]; ok {
+		if f, ok := fmap[[2]int{pi, p.Pend.K}]; ok && (f.Op == "" || f.Op == p.Pend.Op || !strings.HasPrefix(f.Act, "err:")) {
 			act = f.Act
 		}
 		w.Step(p, act)
